@@ -45,7 +45,10 @@ Check ==
     IN  IF base.first.und \/ base.second.und THEN PrintT("VJSON " \o ToJson([id |-> ev.id, status |-> "und"]))
         ELSE IF ~Same(base.first, ev.full.first) \/ ~Same(base.second, ev.full.second)
              THEN PrintT("VJSON " \o ToJson([id |-> ev.id, status |-> "badfull", want |-> base]))
-        ELSE LET pts == AbortPoints(ev, base.polls)
+        ELSE LET \* the implementation may poll once more after the last effect of a run that completes
+                 \* normally (e.g. at an empty finally block): nothing is left to abort, all effects stand
+                 pts == AbortPoints(ev, base.polls)
+                        \cup (IF base.first.thr = <<>> THEN {[log |-> base.first.log, second |-> base.second]} ELSE {})
                  bad == {n \in 1..Len(ev.ints) : ~Explained(ev.ints[n], pts)}
              IN  bad = {} \/ PrintT("VJSON " \o ToJson([id |-> ev.id, status |-> "badint",
                                         k |-> ev.ints[CHOOSE n \in bad : \A m \in bad : n <= m].k,
